@@ -227,38 +227,85 @@ def check_reader_gate(db, chk):
 FUNNELS = (r"^io::commit::commit_transaction$", r"^io::commit::do_commit_detached_transaction$")
 
 
+def _gate_in(c, fn, gb, gt, protected, loc_fn):
+    """For a direct can_write_dataset call: (arg_ok, refuses) where refuses = on the false edge none of the
+    `protected` blocks is reachable and a NotSupported error is built."""
+    org = c.op_origins(gt["args"][0])
+    arg_ok = ("field", "writer_feature_flags") in org
+    sws = [b for b in c.reach0 if c.switch_info(b) and c.switch_info(b)["kind"] == "bool" and
+           c.bool_def(b) and c.bool_def(b)[0] == "call" and c.bool_def(b)[1] == gb]
+    refuses = False
+    for b in sws:
+        si = c.switch_info(b)
+        r = c.reachable_from([si["label_to"][False]], include_start=True, avoid=[si["label_to"][True]])
+        refuses = not any(p in r for p in protected) and any(i in r for (i, j, s) in c.aggregates(adt="Error", variant="NotSupported"))
+    return arg_ok, refuses, org
+
+
+def writer_gate_helpers(db, chk):
+    """One-level summary (DESIGN 2.1): same-crate functions that *are* a writer-flag gate: they call
+    can_write_dataset(<param>.writer_feature_flags), build NotSupported on the false edge and every Ok(..) they
+    return lies on the true edge."""
+    out = {}
+    for f, call in db.callers().get("lance_table::feature_flags::can_write_dataset", []):
+        if call.get("fnref") or f.kind != "fn" or not f.focus:
+            continue
+        c = f.cfg
+        sites = [(b, t) for b, t in calls(f, "feature_flags::can_write_dataset")]
+        if len(sites) != 1:
+            continue
+        gb, gt = sites[0]
+        oks = [i for (i, j, s) in c.aggregates(adt="Result", variant="Ok") if s["lhs"] == [0]]
+        arg_ok, refuses, org = _gate_in(c, f, gb, gt, oks, f)
+        from_param = ("arg", 1) in org
+        if arg_ok and refuses and from_param and oks:
+            out[f.id] = f
+            chk.analysed(f)
+    return out
+
+
 def check_writer_gate(db, chk):
     R = "GATE-writer"
-    chk.rule(R, "can_write_dataset(<current manifest>.writer_feature_flags) dominates write_manifest_file in every commit funnel "
-                "of an existing table")
+    chk.rule(R, "can_write_dataset(<current manifest>.writer_feature_flags) -- directly or through a one-level gate helper -- "
+                "dominates write_manifest_file in every commit funnel of an existing table")
+    helpers = writer_gate_helpers(db, chk)
     for pat in FUNNELS:
         f = db.one(pat, file="lance/src/io/commit.rs")
         body = user_body(db, f, marker="dataset::write_manifest_file")
         chk.analysed(body)
         c = body.cfg
-        wm = [(b, t) for b, t in calls(body, "dataset::write_manifest_file") if "{closure" not in name_of(t)]
-        gates = [(b, t) for b, t in calls(body, "feature_flags::can_write_dataset")]
+        wm = [(b, t) for b, t in calls(body, "dataset::write_manifest_file")]
         key = f.path.split("::")[-1]
-        if not gates:
+        gate_points = []   # blocks from which "the table may be written" is established
+        for gb, gt in calls(body, "feature_flags::can_write_dataset"):
+            arg_ok, refuses, org = _gate_in(c, body, gb, gt, [wb for wb, _ in wm], body)
+            ok = arg_ok and ("field", "manifest") in org and refuses
+            chk.ob(R, "direct-gate:%s" % key, ok, "direct gate: argument is <dataset>.manifest.writer_feature_flags (%s), "
+                   "cannot-write edge publishes nothing and returns NotSupported (%s)" % (arg_ok, refuses), body.loc(gt["ln"]))
+            if ok:
+                sws = [b for b in c.reach0 if c.switch_info(b) and c.switch_info(b)["kind"] == "bool" and
+                       c.bool_def(b) and c.bool_def(b)[0] == "call" and c.bool_def(b)[1] == gb]
+                gate_points += [c.switch_info(b)["label_to"][True] for b in sws]
+        for hb, ht in body.cfg.calls():
+            if ht.get("rid") in helpers:
+                org = c.op_origins(ht["args"][0])
+                oks, errs, sws = ok_targets(c, hb)
+                r_err = c.reachable_from(list(errs), include_start=True) if errs else set()
+                ok = ("field", "manifest") in org and bool(oks) and not any(wb in r_err for wb, _ in wm)
+                chk.ob(R, "helper-gate:%s" % key, ok, "gate helper %s is applied to <dataset>.manifest and its error edge publishes nothing" %
+                       helpers[ht["rid"]].path, body.loc(ht["ln"]))
+                if ok:
+                    gate_points += list(oks)
+        if not gate_points:
             chk.ob(R, "gate-present:%s" % key, False,
                    "%s publishes a manifest without ever consulting can_write_dataset: a table whose writer flags carry an "
                    "unknown bit is written (and its flags reset) instead of being refused" % f.path, f.loc())
             continue
         for wb, wt in wm:
-            dom = [g for g in gates if c.dominates(g[0], wb)]
-            chk.ob(R, "gate-dominates-publish:%s" % key, bool(dom), "can_write_dataset dominates write_manifest_file", body.loc(wt["ln"]))
-        for gb, gt in gates:
-            org = c.op_origins(gt["args"][0])
-            chk.ob(R, "gate-arg:%s" % key, ("field", "writer_feature_flags") in org and ("field", "manifest") in org,
-                   "gate argument is <dataset>.manifest.writer_feature_flags", body.loc(gt["ln"]))
-            sws = [b for b in c.reach0 if c.switch_info(b) and c.switch_info(b)["kind"] == "bool" and
-                   c.bool_def(b) and c.bool_def(b)[0] == "call" and c.bool_def(b)[1] == gb]
-            ok = False
-            for b in sws:
-                si = c.switch_info(b)
-                r = c.reachable_from([si["label_to"][False]], include_start=True, avoid=[si["label_to"][True]])
-                ok = not any(wb in r for wb, _ in wm) and any(i in r for (i, j, s) in c.aggregates(adt="Error", variant="NotSupported"))
-            chk.ob(R, "gate-refuses:%s" % key, ok, "on the cannot-write edge no manifest is published and NotSupported is returned", body.loc(gt["ln"]))
+            chk.ob(R, "gate-dominates-publish:%s" % key, any(c.dominates(g, wb) for g in gate_points),
+                   "the may-write edge of the writer-flag gate dominates write_manifest_file", body.loc(wt["ln"]))
+        # the gated manifest is the one the new version is built on (same dataset value feeds build_manifest)
+        chk.sample({"funnel": key, "gate_points": gate_points, "publish": [wb for wb, _ in wm]})
 
 
 def check_storage_version_dom(db, chk):
